@@ -169,6 +169,7 @@ func writer(inFrames <-chan []byte, conf *Config, h *headers.HeaderInfo, outFram
 		panic(err)
 	}
 	changeFile := time.After(newFileInterval)
+	changeFile = verifRotation(changeFile)
 	for {
 		select {
 		case <-changeFile:
@@ -178,6 +179,7 @@ func writer(inFrames <-chan []byte, conf *Config, h *headers.HeaderInfo, outFram
 				panic(err)
 			}
 			changeFile = time.After(newFileInterval)
+			changeFile = verifRotation(changeFile)
 		case frame, ok := <-inFrames:
 			if !ok {
 				builder.Close()
